@@ -47,9 +47,15 @@ impl RadiusAccount {
 
         let groups = Group::<()>::try_from_account_reduced(value, qs)?;
 
-        let valid_from = value.get_ava_single_datetime(Attribute::AccountValidFrom);
+        // The validity window decides whether the secret may be released at all, so it is read from
+        // the entry itself. The access-reduced view only carries the attributes the requester may read,
+        // and e.g. the RADIUS servers access profile does not grant valid_from / expire: taking them from
+        // the reduced view released the secret of accounts that were expired or not yet valid.
+        let full_entry = qs.internal_search_uuid(uuid)?;
 
-        let expire = value.get_ava_single_datetime(Attribute::AccountExpire);
+        let valid_from = full_entry.get_ava_single_datetime(Attribute::AccountValidFrom);
+
+        let expire = full_entry.get_ava_single_datetime(Attribute::AccountExpire);
 
         Ok(RadiusAccount {
             name,
